@@ -23,7 +23,10 @@ RULE = (
     "with 1..3 payload bytes replaced by boundary/random values; seqn-siblings of every decoded frame; sequences "
     "of 2..400 packets decoded in order, reversed, twice, after clearing the caches and under a different clock. A "
     "case is non-trivial when the packet decodes; distinct by (verb, code, shape, src type, payload). Array cases count "
-    "when n >= 2; order cases when a line appears at two positions."
+    "when n >= 2; order cases when a line appears at two positions. Also: every corpus (verb, code, length) group with each payload digit "
+    "set to 0/7/8/F and each byte-aligned word set to 8 boundary words; coverage-guided campaigns (atheris, class 'fuzz'); and, one layer up "
+    "(class 'gateway'), mutated 10-60-packet histories received by a real ramses_rf.Gateway, where an application handler records every "
+    "delivered payload and each Message must still say the same at the end (counts when >= 10 messages were delivered)."
 )
 
 INDEX_KEYS = ("zone_idx", "domain_id", "dhw_idx", "ufh_idx", "ufx_idx", "hvac_id", "log_idx", "msg_id")
@@ -458,6 +461,35 @@ def explore_orders(job: dict) -> dict:
     return col.dump()
 
 
+def explore_gateway(job: dict) -> dict:
+    """'The same every time' one layer up: a real ramses_rf.Gateway receives a mutated history; an application handler records each
+    delivered message's payload, and at the end every one of those Message objects must still say the same (no later packet, merge or
+    cache may rewrite a payload that was already handed out)."""
+    from vf.env import gwrig
+    from vf.env.quiet import quiet_logs
+    from vf.gen.histories import history
+
+    quiet_logs()
+    col = Collector()
+
+    def body(h: dict) -> None:
+        obs = gwrig.run(dict(h, probe=False, ops=[], watch_payloads=True))
+        n = obs.get("n_watched", 0)
+        pair = "array-pair" in h.get("mutations", [])
+        col.case(nt=jdump_frames(h["frames"]) if n >= 10 else None, classes=["gateway", "gateway:array-pair" if pair else "gateway:no-array-pair"],
+                 sample={"system": h.get("system"), "n_frames": len(h["frames"]), "n_delivered": n, "mutations": h.get("mutations")})
+        for ch in obs.get("payload_changes", [])[:1]:
+            col.violation({"clause": "nondeterministic", "how": "payload-changed-after-delivery", "code": ch["pkt"][37:41] if len(ch["pkt"]) > 41 else "?"},
+                          {"history": h}, f"{ch['pkt']!r}: delivered {ch['delivered'][:200]} but later {ch['later'][:200]}")
+
+    hyp_explore(history(max_len=60), body, job["n"], job["seed"])
+    return col.dump()
+
+
+def jdump_frames(frames: list[str]) -> str:
+    return "\n".join(frames)
+
+
 def explore_fuzz(job: dict) -> dict:
     """Coverage-guided campaign (atheris / libFuzzer, structure-aware mutator); the target applies check_payload(), the repeat-decode
     comparison and (every 4th input) the sequence-number siblings to every input that decodes."""
@@ -484,6 +516,7 @@ def run(ctx: Ctx, col: Collector) -> None:
     ctx.parallel(sweep_corpus_digits, [{"lo": i, "step": ctx.workers} for i in range(ctx.workers)], col)
     ctx.parallel(explore_arrays, ctx.shards(ctx.n(8_000, 300_000)), col)
     ctx.parallel(explore_orders, ctx.shards(ctx.n(640, 16_000), per_shard_min=10), col)
+    ctx.parallel(explore_gateway, ctx.shards(ctx.n(320, 12_000), per_shard_min=10), col)
     from vf import fuzz
 
     ctx.floors = []
@@ -501,6 +534,14 @@ def replay(case: dict) -> list[tuple[dict, str]]:
 
     quiet_logs()
     col = Collector()
+    if "history" in case:
+        from vf.env import gwrig
+
+        obs = gwrig.run(dict(case["history"], probe=False, ops=[], watch_payloads=True))
+        for ch in obs.get("payload_changes", [])[:1]:
+            col.violation({"clause": "nondeterministic", "how": "payload-changed-after-delivery", "code": ch["pkt"][37:41] if len(ch["pkt"]) > 41 else "?"},
+                          case, f"{ch['pkt']!r}: delivered {ch['delivered'][:200]} but later {ch['later'][:200]}")
+        return [(e["sig"], e["cases"][0]["detail"]) for e in col.violations.values()]
     lines = case.get("lines") or [case["line"]]
     for ln in lines:
         f = parse_components(ln[4:])
